@@ -2032,6 +2032,12 @@ func (s *BgpServer) handleFSMMessage(peer *peer, e *fsmMsg) {
 			conf.State = oc.NeighborState{}
 			conf.State.NeighborAddress = conf.Config.NeighborAddress
 			conf.State.PeerAs = conf.Config.PeerAs
+			// State also mirrors configuration that is read from there
+			// (remove-private-as when a peer's copy of a route is made):
+			// keep what SetDefaultNeighborConfigValues put in it
+			conf.State.LocalAs = conf.Config.LocalAs
+			conf.State.PeerType = conf.Config.PeerType
+			conf.State.RemovePrivateAs = conf.Config.RemovePrivateAs
 			conf.Timers.State = oc.TimersState{}
 			peer.fsm.pConf.Update(&conf)
 			peer.fsm.bgpMessageResetStats()
